@@ -229,6 +229,8 @@ def notes_owners(w, home):
         return sanitizer_owners(w, home)
     if o in ('note-monotone', 'note-unjustified', 'note-after-notify', 'note-spontaneous', 'notify-returned-unnotified', 'expiry', 'wait-result'):
         return {'C08'}
+    if o == 'waiter-asleep-after-notify':
+        return {'C08', 'C09'}   # released-on-notification (C08); with frees in the round the adoption clause (C09) is involved too
     if o == 'note-not-propagated':
         return {'C08', 'C09'} if 'adopted' in w.get('key', '') else {'C08'}
     if o in ('deadlock', 'no-progress'):
